@@ -55,7 +55,7 @@ def main():
             sh(["git", "-C", REPO, "checkout", "--", "."])
             sh(["git", "-C", R, "checkout", "--", "lean"])
         results[sid] = {"property": props, "tier": tier, "checks": out,
-                        "detected": any(out[p]["rc"] == 1 and out[p]["violation_lines"] for p in props)}
+                        "detected": any(out[p]["rc"] == 1 and out[p]["violation_lines"] for p in props + also)}
         json.dump(results, open(resf, "w"), indent=1)
     nd = [s for s in ids if not results.get(s, {}).get("detected")]
     print("not detected:", nd)
